@@ -9,4 +9,5 @@ def check(ctx, rep):
     treer.tree_1(ctx, rep)
     treer.tree_5(ctx, rep)
     treer.tree_0(ctx, rep)
+    treer.tree_9(ctx, rep)
     rep.note('Not decided: equality of the round-tripped tree as a value.')
